@@ -80,6 +80,12 @@ type (
 		Name string
 		Args []Lin
 	}
+	// Ite is a value that depends on a comparison of two symbolic integers: Then if X Op Y, else Else.
+	Ite struct {
+		Op         string
+		X, Y       Lin
+		Then, Else Lin
+	}
 	// App is the application of an effect-free function to symbolic arguments.
 	App struct {
 		Fn   *ssa.Function
@@ -129,6 +135,9 @@ func (a Op) key(ren map[int]string) string {
 		s[i] = x.key(ren)
 	}
 	return a.Name + "(" + strings.Join(s, ",") + ")"
+}
+func (a Ite) key(ren map[int]string) string {
+	return "ite(" + a.X.key(ren) + a.Op + a.Y.key(ren) + "?" + a.Then.key(ren) + ":" + a.Else.key(ren) + ")"
 }
 func (a App) key(ren map[int]string) string {
 	s := make([]string, len(a.Args))
@@ -248,6 +257,8 @@ func (l Lin) mapAtoms(f func(Atom) Lin) Lin {
 				}
 			}
 			a = App{x.Fn, x.Res, args}
+		case Ite:
+			a = Ite{x.Op, x.X.mapAtoms(f), x.Y.mapAtoms(f), x.Then.mapAtoms(f), x.Else.mapAtoms(f)}
 		default:
 			a = t.A
 		}
@@ -294,6 +305,11 @@ func (l Lin) freeIDs(out map[int]bool) {
 			for _, a := range x.Args {
 				a.freeIDs(out)
 			}
+		case Ite:
+			x.X.freeIDs(out)
+			x.Y.freeIDs(out)
+			x.Then.freeIDs(out)
+			x.Else.freeIDs(out)
 		case App:
 			for _, a := range x.Args {
 				if a.IsPath {
